@@ -86,7 +86,7 @@ func buildMenu() []spec.Batch {
 		{Name: "a", Len: 1, Stored: true, Value: []byte("ex"), Toks: []spec.Tok{{Term: "x", Freq: 1}}},
 		{Name: "s1", Len: 2, DV: true, Toks: []spec.Tok{{Term: "a", Freq: 1, Locs: []spec.Loc{{Pos: 1, Start: 0, End: 1}}}, {Term: "x", Freq: 1}}},
 		{Name: "v", Len: 1, Stored: true, Value: []byte("vee"), Toks: []spec.Tok{{Term: "x", Freq: 2}}},
-	}}}}
+	}}, enum.SynDoc(1, 18)}} // + a definition document for thesaurus s2 whose only term has no synonym
 	m := []spec.Batch{
 		{},              // 0 empty
 		smallClash,      // 1 one small document whose TEXT fields are named like the thesaurus (s1) and the vector field (v) of other items
@@ -253,7 +253,7 @@ func init() {
 	run.Register(&run.Def{
 		ID:          "C10",
 		Level:       "model_checking",
-		Rule:        "histories and schedules of real builds sharing the pooled builder memory: a batch menu of 8 items (empty; one small document whose text fields carry the names that the thesaurus and the vector field have in other items; many fields / terms / doc values / locations / arrays and a 500-byte stored value; few fields, many documents; synonyms with two thesauri; synonyms with one thesaurus; a batch rejected by the field validator; composite field with overlapping field names; under the vectors tag also a vector batch and a two-vector-field batch). (a) EVERY sequence over the menu of length <= 3 (quick) / 4 (thorough), run in one process: under the controlled scheduler with a deterministic sync.Pool (Get returns the most recently put builder = maximal reuse; the alternatives 'another pooled builder' and 'a fresh one' are explored as environment deviations, bound 1-2), with the pool empty or pre-seeded with 1-2 used builders left by concurrent builds (histories run without preemptions; goroutines spawned by the code run to completion at the spawn point); and with the real sync.Pool (GC disabled). (b) 2 goroutines building concurrently: every pair of the menu, pool pre-seeded with 0/1/2 used builders, interleavings at pool operations up to 4 preemptions (each build has 2 pool operations, so this covers all interleavings of 2 builds; 2 preemptions in quick when the pool is pre-seeded with 2 builders); 3 goroutines: every triple of a 5-item sub-menu, empty pool, preemption bound 2; results checked after the join; plus a free-running -race pass. Oracle: every build's complete dump equals the reference of its own batch (= what a fresh process would build), and the bytes it would persist carry a footer and CRC-32 that match them; the rejected batch fails. Non-trivial = history or schedule with >= 2 builds.",
+		Rule:        "histories and schedules of real builds sharing the pooled builder memory: a batch menu of 8 items (empty; one small document whose text fields carry the names that the thesaurus and the vector field have in other items, plus a thesaurus whose only term has no synonym; many fields / terms / doc values / locations / arrays and a 500-byte stored value; few fields, many documents; synonyms with two thesauri; synonyms with one thesaurus; a batch rejected by the field validator; composite field with overlapping field names; under the vectors tag also a vector batch and a two-vector-field batch). (a) EVERY sequence over the menu of length <= 3 (quick) / 4 (thorough), run in one process: under the controlled scheduler with a deterministic sync.Pool (Get returns the most recently put builder = maximal reuse; the alternatives 'another pooled builder' and 'a fresh one' are explored as environment deviations, bound 1-2), with the pool empty or pre-seeded with 1-2 used builders left by concurrent builds (histories run without preemptions; goroutines spawned by the code run to completion at the spawn point); and with the real sync.Pool (GC disabled). (b) 2 goroutines building concurrently: every pair of the menu, pool pre-seeded with 0/1/2 used builders, interleavings at pool operations up to 4 preemptions (each build has 2 pool operations, so this covers all interleavings of 2 builds; 2 preemptions in quick when the pool is pre-seeded with 2 builders); 3 goroutines: every triple of a 5-item sub-menu, empty pool, preemption bound 2; results checked after the join; plus a free-running -race pass. Oracle: every build's complete dump equals the reference of its own batch (= what a fresh process would build), and the bytes it would persist carry a footer and CRC-32 that match them; the rejected batch fails. Non-trivial = history or schedule with >= 2 builds.",
 		Assumptions: append([]string{"the validator hook (exported variable ValidateDocFields) is set by the harness for the whole run"}, batchAssumptions...),
 		Bounds:      map[string]string{"quick": "sequences <= 3 x preseed {0,2} (scheduler) and <= 3 (real pool); all concurrent pairs, triples of a 5-item sub-menu; race pass", "thorough": "sequences <= 4 x preseed {0,1,2}; same concurrent space"},
 		Flavours:    func(string) []string { return []string{"inst", "instvec", "plain", "race"} },
